@@ -719,3 +719,28 @@ Proof.
     apply N; [now apply visible_nulls_are_sites|].
     rewrite D, sync_data. apply (visible_nulls_agree root W x); auto. now apply visible_nulls_are_sites.
 Qed.
+
+(** ** the idle-handler contract (graphql.go: "any time request execution is unable to proceed, the
+    idle handler will be invoked"): in the model an idle call that finds no outstanding promise
+    ends the run as [Stuck], whatever the handler is; a ready future is returned by [wait] without
+    any idle call; and no run under a fair handler is [Stuck] — so the executor calls the idle
+    handler only while a promise is outstanding, and never after completion. *)
+Lemma idle_needs_outstanding sigma s : outstanding s = [] -> idle sigma s = None.
+Proof.
+  unfold outstanding, idle. intros O. apply map_eq_nil in O.
+  assert (H : filter (fun p => negb (p_done p) && mem_nat (p_id p) (sigma (s_round s) [])) (s_proms s) = []).
+  { induction (s_proms s) as [|p l IH]; [reflexivity|]. simpl in *.
+    destruct (negb (p_done p)); [discriminate|]. simpl. now apply IH. }
+  unfold outstanding. rewrite O. simpl. now rewrite H.
+Qed.
+
+Lemma wait_ready_no_idle fl sigma fuel r s : wait fl sigma fuel (Ready r) s = Done (r, s).
+Proof. reflexivity. Qed.
+
+Theorem run_never_stuck md sigma fuel jfuel root :
+  fair sigma -> count_async root <= fuel -> resp_depth root < jfuel ->
+  run FX sigma md fuel jfuel root <> Stuck /\ run FX sigma md fuel jfuel root <> OutOfFuel.
+Proof.
+  intros Fa Hf Hj. destruct (run_conforms md sigma fuel jfuel root Fa Hf Hj) as (r & E & _).
+  rewrite E. split; discriminate.
+Qed.
